@@ -27,10 +27,17 @@ def audit(argv, cwd, root, env=None, timeout=120):
     cmd = ["strace", "-f", "-s", "70000", "-e", "trace=%file,fchmod,fchown,fsetxattr,fchdir", "-o", log] + list(argv)
     e = dict(os.environ)
     e.update(env or {})
+    p = subprocess.Popen(cmd, cwd=cwd, stdin=subprocess.DEVNULL, stdout=subprocess.DEVNULL, stderr=subprocess.PIPE, env=e, start_new_session=True)
     try:
-        p = subprocess.run(cmd, cwd=cwd, stdin=subprocess.DEVNULL, stdout=subprocess.DEVNULL, stderr=subprocess.PIPE, env=e, timeout=timeout)
-        rc, err = p.returncode, p.stderr
+        _, err = p.communicate(timeout=timeout)
+        rc = p.returncode
     except subprocess.TimeoutExpired:
+        import signal
+        try:
+            os.killpg(p.pid, signal.SIGKILL)      # strace and the traced tool
+        except OSError:
+            pass
+        p.communicate()
         rc, err = None, b"timeout"
     findings = []
     stats = {"calls": 0, "modifying_calls": 0, "symlinks_created": 0, "chdir_seen": 0}
